@@ -107,7 +107,9 @@ func keyBuildRSASamples(ctx *Ctx) []*keyRSASample {
 			return
 		}
 		if err := k.Validate(); err != nil {
-			ctx.Res.Fail("rsa sample " + label + " is not valid: " + err.Error())
+			// the policy of the standard library on what a valid key is may change (small moduli, small exponents):
+			// such a sample is left out and counted; the floor below keeps the run meaningful
+			ctx.Res.Count("sample.rsa.rejected-by-stdlib." + label)
 			return
 		}
 		out = append(out, &keyRSASample{label: label, key: k, multi: len(k.Primes) > 2})
@@ -197,6 +199,15 @@ func keyBuildRSASamples(ctx *Ctx) []*keyRSASample {
 				break
 			}
 		}
+	}
+	valid := 0
+	for _, s := range out {
+		if !s.lenient {
+			valid++
+		}
+	}
+	if valid < 8 {
+		ctx.Res.Fail(fmt.Sprintf("key: only %d RSA samples are accepted by (*rsa.PrivateKey).Validate", valid))
 	}
 	return out
 }
